@@ -13,11 +13,17 @@ def sha256d(b):
     return hashlib.sha256(hashlib.sha256(b).digest()).digest()
 
 
+_PAT = {}
+
+
 def fill(n, seed=0):
     """deterministic n-byte pattern (not all equal, so that shifted reads are visible)"""
     if n == 0:
         return b''
-    pat = bytes((seed + 37 * i) & 0xff for i in range(251))
+    seed &= 0xff
+    pat = _PAT.get(seed)
+    if pat is None:
+        pat = _PAT[seed] = bytes((seed + 37 * i) & 0xff for i in range(251))
     return (pat * (n // 251 + 1))[:n]
 
 
